@@ -497,7 +497,9 @@ func (p *proxyConn) writeResponseDeferTrace(res *http.Response, deferTrace bool)
 		case !req.ProtoAtLeast(1, 1):
 			res.TransferEncoding = nil
 			res.Close = true
-		case len(res.TransferEncoding) == 0 && !res.Close:
+		case len(res.TransferEncoding) == 0:
+			// Also when the upstream delimits the body by closing its connection (res.Close): delivered in
+			// chunks, a body cut short by an upstream failure stays recognisable as incomplete.
 			if res.ProtoAtLeast(1, 1) {
 				res.TransferEncoding = []string{"chunked"}
 			} else {
